@@ -12,6 +12,7 @@
 From Coq Require Import List Bool Arith Lia PeanoNat ZArith Sorting.Sorted Sorting.Permutation.
 From TLXV Require Import Common.Order.
 From TLXV Require C05.StableMerge C05.Model C05.MergeFacts C05.StableMergeFacts C05.BaseProofs C05.RefTreeProofs C05.Final.
+From TLXV Require C05.C09Model C05.C09Instance.
 From TLXV Require C08.MSP C08.MSPSpec C08.MSPCorrect.
 From TLXV Require Import C06.PMS C06.MergeLemmas C06.Layout C06.Cuts C06.PMSProofs C06.Top.
 Import ListNotations.
@@ -125,6 +126,50 @@ Section Instances.
     rewrite E, L, <- (StableMergeFacts.gmerge_length ltb H seqs), firstn_all. apply gmerge_is_smerge.
   Qed.
 
+  (** * The same over C09's loser-tree model instead of the reference tournament
+      [C09Model.c9_mwm] = [mwm_base] over C09's [lt_build / lt_min_source / lt_delete_min_insert] ([ptr]: the
+      pointer-based or the copy-based tree classes; [dk]: the key stored in never-filled slots).  C09's model
+      covers up to 2^30 players ([Source = uint32_t]); with more sequences than that - outside anything the sort
+      can be asked to do with one thread per sequence - the wrapper falls back to [mmerge_c05]. *)
+  Variable dk : A.
+  Definition mmerge_c09 (ptr stable : bool) (seqs : list (list A)) : list A :=
+    if (N.of_nat (length seqs) <=? 2 ^ 30)%N then
+      match C09Model.c9_mwm ltb dk ptr stable false Model.MWMA_LOSER_TREE_COMBINED seqs [] (StableMerge.total seqs) with
+      | Some (out, _) => out
+      | None => []
+      end
+    else mmerge_c05 stable seqs.
+
+  Lemma mmerge_c09_run ptr stable (seqs : list (list A)) : Forall (SS ltb) seqs ->
+    exists st', StableMerge.mrun ltb stable seqs (mmerge_c09 ptr stable seqs) st' /\
+                length (mmerge_c09 ptr stable seqs) = StableMerge.total seqs.
+  Proof.
+    intros Hs. unfold mmerge_c09. destruct (N.leb_spec (N.of_nat (length seqs)) (2 ^ 30)) as [Hk|Hk].
+    - destruct (C09Instance.c9_mwm_run ltb H dk ptr stable false Model.MWMA_LOSER_TREE_COMBINED seqs [] (StableMerge.total seqs)
+                  (SS_inputs_ok _ Hs) (le_n _) ltac:(discriminate) Hk) as (out & st' & E & R & L).
+      rewrite E. exists st'. split; assumption.
+    - now apply mmerge_c05_run.
+  Qed.
+
+  Theorem mmerge_c09_merges ptr stable : merges ltb (mmerge_c09 ptr stable).
+  Proof.
+    intros seqs Hs. destruct (mmerge_c09_run ptr stable seqs Hs) as (st' & R & L).
+    pose proof (StableMergeFacts.mrun_perm ltb _ _ _ _ R) as P.
+    assert (E : concat st' = []).
+    { pose proof (Permutation_length P) as PL. rewrite app_length, L, total_concat in PL.
+      destruct (concat st'); [reflexivity|simpl in PL; lia]. }
+    rewrite E, app_nil_r in P. split; [exact P|].
+    assert (Hss : MergeFacts.sorted_state ltb seqs) by exact Hs.
+    exact (proj1 (MergeFacts.mrun_sorted ltb H _ _ _ _ Hss R)).
+  Qed.
+
+  Theorem mmerge_c09_stable ptr (seqs : list (list A)) : Forall (SS ltb) seqs -> mmerge_c09 ptr true seqs = PMS.smerge ltb seqs.
+  Proof.
+    intros Hs. destruct (mmerge_c09_run ptr true seqs Hs) as (st' & R & L).
+    destruct (StableMergeFacts.mrun_true_gmerge ltb H _ _ _ R) as [E _].
+    rewrite E, L, <- (StableMergeFacts.gmerge_length ltb H seqs), firstn_all. apply gmerge_is_smerge.
+  Qed.
+
   (** * The C08 model of multisequence_partition, offsets as nat *)
   Definition partition_c08 (seqs : list (list A)) (r : nat) : list nat :=
     match MSP.partition ltb seqs (Z.of_nat r) with
@@ -221,5 +266,23 @@ Section Instances.
     intros Hos Hp Hst.
     apply (pms_stable ltb H lsort ssort partition_c08 (mmerge_c05 true) d Hlsort Hssort
              partition_c08_spec (mmerge_c05_merges true) Hst mmerge_c05_stable); assumption.
+  Qed.
+
+  (** ... and over the C09 trees *)
+  Theorem pms_c08_c09_sorted_permutation ptr stable sampling os p input : 1 <= os -> 1 <= p ->
+    let r := pms ltb lsort ssort partition_c08 (mmerge_c09 ptr stable) d sampling os p input in
+    Permutation (res_array r) input /\ SS ltb (res_array r) /\ res_ok r = true.
+  Proof.
+    apply (pms_sorted_permutation ltb H lsort ssort partition_c08 (mmerge_c09 ptr stable) d Hlsort Hssort
+             partition_c08_spec (mmerge_c09_merges ptr stable)).
+  Qed.
+
+  Theorem pms_c08_c09_stable ptr sampling os p input : 1 <= os -> 1 <= p ->
+    (forall l, lsort l = stable_sort ltb l) ->
+    res_array (pms ltb lsort ssort partition_c08 (mmerge_c09 ptr true) d sampling os p input) = stable_sort ltb input.
+  Proof.
+    intros Hos Hp Hst.
+    apply (pms_stable ltb H lsort ssort partition_c08 (mmerge_c09 ptr true) d Hlsort Hssort
+             partition_c08_spec (mmerge_c09_merges ptr true) Hst (mmerge_c09_stable ptr)); assumption.
   Qed.
 End Instances.
